@@ -56,12 +56,15 @@ Section FaultMin.
   Proof. intros Hg. destruct o as [p|e]; cbn [with_page snd]; [apply Hg|apply ext_refl]. Qed.
 
   (* ---------------- index trees ---------------- *)
-  Variable icb : R -> S -> flow * S.
+  (* the callback of the faulty run may itself fail earlier than the fault-free one's (the high level
+     callbacks do nested lookups through the same pager) *)
+  Variables icb' icb : R -> S -> flow * S.
+  Hypothesis icb_le : forall r s, out_le (icb' r s) (icb r s).
   Hypothesis icb_grows : forall r, grows (icb r).
 
-  Lemma emit_le pl s : out_le (emit P R load' S icb pl s) (emit P R load S icb pl s).
+  Lemma emit_le pl s : out_le (emit P R load' S icb' pl s) (emit P R load S icb pl s).
   Proof.
-    unfold emit. destruct (Hload pl) as [->|(e & ->)]; [left; reflexivity|].
+    unfold emit. destruct (Hload pl) as [->|(e & ->)]; [destruct (load pl) as [rec|e0]; [apply icb_le|left; reflexivity]|].
     right. exists e. split; [reflexivity|]. cbn [snd]. destruct (load pl) as [rec|e0]; cbn [snd]; [apply icb_grows|apply ext_refl].
   Qed.
   Lemma emit_grows ld pl : grows (emit P R ld S icb pl).
@@ -72,7 +75,7 @@ Section FaultMin.
     induction cells as [|pl rest IH]; intros s; cbn [ileaf_iter snd]; [apply ext_refl|].
     apply andthen_grows; [apply emit_grows|exact IH].
   Qed.
-  Lemma ileaf_iter_le cells : forall s, out_le (ileaf_iter P R load' S icb cells s) (ileaf_iter P R load S icb cells s).
+  Lemma ileaf_iter_le cells : forall s, out_le (ileaf_iter P R load' S icb' cells s) (ileaf_iter P R load S icb cells s).
   Proof.
     induction cells as [|pl rest IH]; intros s; cbn [ileaf_iter]; [left; reflexivity|].
     apply andthen_le; [apply emit_le|exact IH|apply ileaf_iter_grows].
@@ -84,7 +87,7 @@ Section FaultMin.
     apply andthen_grows; [apply Hs|]. intros s1. apply andthen_grows; [apply emit_grows|exact IH].
   Qed.
   Lemma iinterior_iter_le sub' sub cells rgt : (forall p s, out_le (sub' p s) (sub p s)) -> (forall p, grows (sub p)) ->
-    forall s, out_le (iinterior_iter P R load' S icb sub' cells rgt s) (iinterior_iter P R load S icb sub cells rgt s).
+    forall s, out_le (iinterior_iter P R load' S icb' sub' cells rgt s) (iinterior_iter P R load S icb sub cells rgt s).
   Proof.
     intros Hs Hg. induction cells as [|[lft pl] rest IH]; intros s; cbn [iinterior_iter]; [apply Hs|].
     apply andthen_le; [apply Hs| |].
@@ -98,7 +101,7 @@ Section FaultMin.
       try apply ileaf_iter_grows.
     apply iinterior_iter_grows. intros p s1. apply with_page_grows. intros page. apply IH.
   Qed.
-  Lemma iiter_le r : forall pg s, out_le (iiter P R openp' load' S icb r pg s) (iiter P R openp load S icb r pg s).
+  Lemma iiter_le r : forall pg s, out_le (iiter P R openp' load' S icb' r pg s) (iiter P R openp load S icb r pg s).
   Proof.
     induction r as [|r IH]; intros pg s; destruct pg as [c|c g|c|c g]; cbn [iiter]; try apply out_le_refl;
       try apply ileaf_iter_le.
@@ -137,7 +140,7 @@ Section FaultMin.
     intros s. unfold ileaf_iter_min. destruct (sort_search_e _ _) as [n [x|]]; cbn [snd]; [apply ext_refl|apply ileaf_iter_grows].
   Qed.
   Lemma ileaf_iter_min_le cells s :
-    out_le (ileaf_iter_min P R load' S icb pred cells s) (ileaf_iter_min P R load S icb pred cells s).
+    out_le (ileaf_iter_min P R load' S icb' pred cells s) (ileaf_iter_min P R load S icb pred cells s).
   Proof.
     unfold ileaf_iter_min, sort_search_e.
     destruct (search_le (length cells)
@@ -161,7 +164,7 @@ Section FaultMin.
   Lemma iinterior_iter_min_le sub_min' sub_min sub_iter' sub_iter cells rgt s :
     (forall p s, out_le (sub_min' p s) (sub_min p s)) -> (forall p, grows (sub_min p)) ->
     (forall p s, out_le (sub_iter' p s) (sub_iter p s)) -> (forall p, grows (sub_iter p)) ->
-    out_le (iinterior_iter_min P R load' S icb pred sub_min' sub_iter' cells rgt s)
+    out_le (iinterior_iter_min P R load' S icb' pred sub_min' sub_iter' cells rgt s)
            (iinterior_iter_min P R load S icb pred sub_min sub_iter cells rgt s).
   Proof.
     intros Hm Hmg Hi Hig.
@@ -188,7 +191,7 @@ Section FaultMin.
     apply iinterior_iter_min_grows; intros p s1; apply with_page_grows; intros page; [apply IH|apply iiter_grows].
   Qed.
   Theorem iiter_min_le r : forall pg s,
-    out_le (iiter_min P R openp' load' S icb pred r pg s) (iiter_min P R openp load S icb pred r pg s).
+    out_le (iiter_min P R openp' load' S icb' pred r pg s) (iiter_min P R openp load S icb pred r pg s).
   Proof.
     induction r as [|r IH]; intros pg s; destruct pg as [c|c g|c|c g]; cbn [iiter_min]; try apply out_le_refl;
       try apply ileaf_iter_min_le.
@@ -200,13 +203,19 @@ Section FaultMin.
   Qed.
 
   (* ---------------- table trees ---------------- *)
-  Variable tcb : Z -> P -> S -> flow * S.
+  Variables tcb' tcb : Z -> P -> S -> flow * S.
+  Hypothesis tcb_le : forall k pl s, out_le (tcb' k pl s) (tcb k pl s).
   Hypothesis tcb_grows : forall k pl, grows (tcb k pl).
 
   Lemma tleaf_iter_grows cells : grows (tleaf_iter P S tcb cells).
   Proof.
     induction cells as [|[k pl] rest IH]; intros s; cbn [tleaf_iter snd]; [apply ext_refl|].
     apply andthen_grows; [apply tcb_grows|exact IH].
+  Qed.
+  Lemma tleaf_iter_le cells : forall s, out_le (tleaf_iter P S tcb' cells s) (tleaf_iter P S tcb cells s).
+  Proof.
+    induction cells as [|[k pl] rest IH]; intros s; cbn [tleaf_iter]; [left; reflexivity|].
+    apply andthen_le; [apply tcb_le|exact IH|apply tleaf_iter_grows].
   Qed.
   Lemma tinterior_iter_grows sub cells rgt : (forall p, grows (sub p)) -> grows (tinterior_iter S sub cells rgt).
   Proof.
@@ -225,9 +234,10 @@ Section FaultMin.
       try apply tleaf_iter_grows.
     apply tinterior_iter_grows. intros p s1. apply with_page_grows. intros page. apply IH.
   Qed.
-  Lemma titer_le r : forall pg s, out_le (titer P openp' S tcb r pg s) (titer P openp S tcb r pg s).
+  Lemma titer_le r : forall pg s, out_le (titer P openp' S tcb' r pg s) (titer P openp S tcb r pg s).
   Proof.
-    induction r as [|r IH]; intros pg s; destruct pg as [c|c g|c|c g]; cbn [titer]; try apply out_le_refl.
+    induction r as [|r IH]; intros pg s; destruct pg as [c|c g|c|c g]; cbn [titer]; try apply out_le_refl;
+      try apply tleaf_iter_le.
     apply tinterior_iter_le.
     - intros p s1. apply with_page_le; [apply open_table_le; exact Hopen|intros page; apply IH|intros page; apply titer_grows].
     - intros p s1. apply with_page_grows. intros page. apply titer_grows.
@@ -236,6 +246,10 @@ Section FaultMin.
   Proof.
     intros s. unfold tleaf_iter_min. destruct (skipn _ cells) as [|[k pl] rest]; cbn [snd]; [apply ext_refl|apply tcb_grows].
   Qed.
+  Lemma tleaf_iter_min_le cells rowid s : out_le (tleaf_iter_min P S tcb' cells rowid s) (tleaf_iter_min P S tcb cells rowid s).
+  Proof.
+    unfold tleaf_iter_min. destruct (skipn _ cells) as [|[k pl] rest]; [left; reflexivity|apply tcb_le].
+  Qed.
   Lemma titer_min_grows op r rowid : forall pg, grows (fun s => titer_min P op S tcb r pg rowid s).
   Proof.
     induction r as [|r IH]; intros pg s; destruct pg as [c|c g|c|c g]; cbn [titer_min snd]; try apply ext_refl;
@@ -243,9 +257,10 @@ Section FaultMin.
     unfold tinterior_iter_min. apply tinterior_iter_grows. intros p s1. apply with_page_grows. intros page. apply IH.
   Qed.
   Theorem titer_min_le r rowid : forall pg s,
-    out_le (titer_min P openp' S tcb r pg rowid s) (titer_min P openp S tcb r pg rowid s).
+    out_le (titer_min P openp' S tcb' r pg rowid s) (titer_min P openp S tcb r pg rowid s).
   Proof.
-    induction r as [|r IH]; intros pg s; destruct pg as [c|c g|c|c g]; cbn [titer_min]; try apply out_le_refl.
+    induction r as [|r IH]; intros pg s; destruct pg as [c|c g|c|c g]; cbn [titer_min]; try apply out_le_refl;
+      try apply tleaf_iter_min_le.
     unfold tinterior_iter_min. apply tinterior_iter_le.
     - intros p s1. apply with_page_le; [apply open_table_le; exact Hopen|intros page; apply IH|intros page; apply (titer_min_grows openp r rowid page)].
     - intros p s1. apply with_page_grows. intros page. apply (titer_min_grows openp r rowid page).
@@ -276,7 +291,7 @@ Section PagerFaultMin.
     destruct (open_index_le _ _ _ Hop root) as [->|(e & ->)].
     - destruct (open_index _ op root) as [p|e]; [|left; reflexivity].
       apply (iiter_min_le cell_payload record op' op (load pg' npages) (load pg npages) Hop (load_le pg' pg npages Hpg)
-               rows lext lext_refl lext_trans cb Hcb).
+               rows lext lext_refl lext_trans cb cb (fun _ _ => out_le_refl _ _ _) Hcb).
     - right. exists e. split; [reflexivity|]. cbn [snd].
       destruct (open_index _ op root) as [p|e0]; cbn [snd]; [|apply lext_refl].
       apply (iiter_min_grows cell_payload record rows lext lext_refl lext_trans cb Hcb).
@@ -308,7 +323,8 @@ Section PagerFaultMin.
     destruct (open_table_le _ _ _ Hop root) as [->|(e & ->)]; [|right; exists e; reflexivity].
     destruct (open_table _ op root) as [p|e]; [|left; reflexivity].
     destruct (titer_min_le cell_payload op' op Hop (option cell_payload) (fun _ _ => True) (fun _ => I) (fun _ _ _ _ _ => I)
-                (fun k pl s => (Stop, if k =? rowid then Some pl else s)) (fun _ _ _ => I) max_recursion rowid p None) as [->|(e & He & _)].
+                (fun k pl s => (Stop, if k =? rowid then Some pl else s)) (fun k pl s => (Stop, if k =? rowid then Some pl else s))
+                (fun _ _ _ => out_le_refl _ _ _) (fun _ _ _ => I) max_recursion rowid p None) as [->|(e & He & _)].
     - destruct (titer_min _ op _ _ _ _ _ _) as [[| |e] [pl|]]; try (left; reflexivity).
       + destruct (load_le pg' pg npages Hpg pl) as [->|(e & ->)]; [left; reflexivity|right; exists e; reflexivity].
       + destruct (load_le pg' pg npages Hpg pl) as [->|(e & ->)]; [left; reflexivity|right; exists e; reflexivity].
